@@ -100,7 +100,9 @@ class QRLinear(Linear):
             D = num of features
         """
         upper = self._create_upper()
-        identity = torch.eye(self.features, self.features)
+        identity = torch.eye(
+            self.features, self.features, dtype=upper.dtype, device=upper.device
+        )
         upper_inv = torch.linalg.solve_triangular(upper, identity, upper=True)
         weight_inv, _ = self.orthogonal(upper_inv)
         return weight_inv
